@@ -32,3 +32,29 @@ for d in sorted((V / "seeded").glob("C*_*")):
     rep = m.get("check_report", "")
     rep = (rep[:420] + "…") if len(rep) > 420 else rep
     print(f"| {d.name} | {m.get('property')} | {need.replace('|', '/')} | {m.get('check_verdict')} | {rep.replace('|', '/')} |")
+
+
+def summary():
+    print("\n#### Per-property summary (from the committed evidence of the last quick run)\n")
+    print("| id | level | theorems audited | axioms (Print Assumptions) | obligations | cases | quick wall (s) |\n|---|---|---|---|---|---|---|")
+    man = json.loads((V / "MANIFEST.json").read_text())
+    for c in man["checks"]:
+        pid = c["property_id"]
+        p = V / "evidence" / f"{pid}.json"
+        if not p.exists():
+            continue
+        e = json.loads(p.read_text())
+        cov = e["coverage"]
+        audits = [v for k2, v in cov.items() if isinstance(v, dict) and "theorems" in v]
+        nth = sum(len(a["theorems"]) for a in audits)
+        PRIM = ("Uint63.", "PrimInt63.", "PrimFloat.", "Sint63.", "FloatAxioms.", "FloatOps.", "PArray.", "Uint63Axioms.", "CarryType.")
+        raw = {a2 for a in audits for a2 in a.get("axioms_used", [])}
+        ax = sorted({a2.split(".")[-1] for a2 in raw if not a2.startswith(PRIM)})
+        if any(a2.startswith(PRIM) for a2 in raw):
+            ax.append("+ machine-integer/float primitives of coq-interval (refutation witness only)")
+        print(f"| {pid} | {c['level_claimed']['text'][:60].split('.')[0]}… | {nth} | {', '.join(ax) or 'none'} | "
+              f"{cov.get('discharged')}/{cov.get('obligations')} | {cov.get('evaluations')} | {e['wall_s']} |")
+
+
+if __name__ == "__main__":
+    summary()
